@@ -23,7 +23,7 @@ NoIdx(tc) == [tc EXCEPT !.hasidx = 0, !.ins = <<>>, !.rem = <<>>]
 Corruptions(tc0) ==
   LET tc == NoIdx(tc0) IN
   {C(tc, "none", 1, "none", 0)}
-  \cup {C([tc EXCEPT !.L = v], "L", 1, "L", v) : v \in {0, -1, tc.L - 1}}
+  \cup {C([tc EXCEPT !.L = v], "L", 1, "L", v) : v \in {0, -1, tc.L - 1, NAN, PINF, NINF}}
   \cup UNION {{C([tc EXCEPT !.nodes[j].time = v], "nodes", j, "time", v) : v \in TimeVals(tc)} : j \in Rows(tc.nodes)}
   \cup UNION {{C([tc EXCEPT !.nodes[j].pop = v], "nodes", j, "population", v) : v \in IdVals(tc.npop)} : j \in Rows(tc.nodes)}
   \cup UNION {{C([tc EXCEPT !.nodes[j].ind = v], "nodes", j, "individual", v) : v \in IdVals(Len(tc.inds))} : j \in Rows(tc.nodes)}
